@@ -508,13 +508,15 @@ func DateRangeFunc(query *Query, current Map, functionOptions *FunctionOptions, 
 		from string
 		to   string
 	)
+	// a number by its decimal text (1700000000, not 1.7e+09)
 	if args[0] != nil {
-		from = fmt.Sprintf("%v", args[0])
+		from = compare.Text(args[0])
 	}
 	if args[1] != nil {
-		to = fmt.Sprintf("%v", args[1])
+		to = compare.Text(args[1])
 	}
-	return []string{from, to}, nil
+	// an array like any other: FIRST, LAST, ELEMENTAT and UNWIND read it
+	return []any{from, to}, nil
 }
 
 //	Constant
